@@ -23,6 +23,7 @@ Corruptions(b) ==
     {[kind |-> "none"]}
     \cup {[kind |-> "cnt", row |-> r, to |-> n] : r \in DOMAIN b.table, n \in ({NCols + 1, NCols - 1, 0, -1} \ {NCols})}
     \cup {[kind |-> "trunc", at |-> p] : p \in 0..(Len(FullStream(b)) - 1)}
+    \cup {[kind |-> "len", row |-> r, col |-> j] : r \in DOMAIN b.table, j \in 1..NCols}
 
 SubsetsUpTo(S, n) == {T \in SUBSET S : Cardinality(T) <= n}
 
